@@ -338,4 +338,105 @@ theorem seg_other (A : Bcsr α) {j k j0 k0 l0 : Nat} (hk : k < A.bh) (hk0 : k0 <
 
 end Bodies
 
+section ScalarB1
+variable {α : Type} [Zero α] [One α] [Mul α]
+
+theorem foldl_fun_zero {β : Type} (ψ : β → α → α) (t0 : β) : ∀ (l : List β) (x : α), t0 ∈ l →
+    (∀ t ∈ l, ∀ y, ψ t y = y ∨ ψ t y = 0) → (∀ y, ψ t0 y = 0) → l.foldl (fun x t => ψ t x) x = 0
+  | [], _, h0, _, _ => by simp at h0
+  | t :: l, x, h0, h, hz => by
+    simp only [List.foldl_cons]
+    rcases List.mem_cons.mp h0 with hh | hh
+    · subst hh
+      rw [hz x]
+      have : ∀ (l' : List β), (∀ t ∈ l', ∀ y, ψ t y = y ∨ ψ t y = 0) → l'.foldl (fun x t => ψ t x) (0 : α) = 0 := by
+        intro l'
+        induction l' with
+        | nil => intro _; rfl
+        | cons a l'' ih =>
+          intro hh'
+          simp only [List.foldl_cons]
+          have h0' : ψ a 0 = 0 := by rcases hh' a List.mem_cons_self 0 with h1 | h1 <;> exact h1
+          rw [h0']
+          exact ih (fun t ht => hh' t (List.mem_cons_of_mem _ ht))
+      exact this l (fun t' ht' => h t' (List.mem_cons_of_mem _ ht'))
+    · exact foldl_fun_zero ψ t0 l _ hh (fun t' ht' => h t' (List.mem_cons_of_mem _ ht')) hz
+
+/-- `UnitFilter::filter_offdiag_row_mat(SparseMatrixBCSR<1, bw>&)`, read at the stored scalar `l0` of block `j0` of
+    block row `i0` -/
+theorem getD_offdiagB1 {A : Bcsr α} (W : BcsrWF A) (es : List (Nat × α)) (hes : ∀ e ∈ es, e.1 < A.rows)
+    (i0 j0 l0 : Nat) (hi0 : i0 < A.rows) (hj0 : A.rowPtr.getD i0 0 ≤ j0 ∧ j0 < A.rowPtr.getD (i0 + 1) 0)
+    (hl0 : l0 < A.bw) (v : Array α) (hq : j0 * A.bw + l0 < v.size) :
+    let res := es.foldl (fun v e => foldRange (A.rowPtr.getD e.1 0) (A.rowPtr.getD (e.1 + 1) 0)
+      (fun v j => setRange (j * A.bw) (j * A.bw + A.bw) (fun _ => (0 : α)) v) v) v
+    ((∃ e ∈ es, e.1 = i0) → res.getD (j0 * A.bw + l0) 0 = 0) ∧
+    ((∀ e ∈ es, e.1 ≠ i0) → res.getD (j0 * A.bw + l0) 0 = v.getD (j0 * A.bw + l0) 0) := by
+  intro res
+  -- one block
+  have hJ : ∀ (v : Array α) (j : Nat), j0 * A.bw + l0 < v.size →
+      (setRange (j * A.bw) (j * A.bw + A.bw) (fun _ => (0 : α)) v).getD (j0 * A.bw + l0) 0 =
+        (if j = j0 then 0 else v.getD (j0 * A.bw + l0) 0) := by
+    intro v j hv
+    rw [getD_setRange]
+    by_cases hj : j = j0
+    · subst hj
+      rw [if_pos ⟨by omega, by omega, hv⟩, if_pos rfl]
+    · have hd := block_disjoint A.bw j j0 l0 (fun hh => hj hh.symm) hl0
+      rw [Nat.mul_comm A.bw, Nat.mul_comm A.bw] at hd
+      rw [if_neg (fun hh => hd ⟨hh.1, hh.2.1⟩), if_neg hj]
+  -- one entry
+  have hE : ∀ (e : Nat × α) (v : Array α), e.1 < A.rows → j0 * A.bw + l0 < v.size →
+      (foldRange (A.rowPtr.getD e.1 0) (A.rowPtr.getD (e.1 + 1) 0)
+        (fun v j => setRange (j * A.bw) (j * A.bw + A.bw) (fun _ => (0 : α)) v) v).getD (j0 * A.bw + l0) 0 =
+        (if e.1 = i0 then 0 else v.getD (j0 * A.bw + l0) 0) ∧
+      (foldRange (A.rowPtr.getD e.1 0) (A.rowPtr.getD (e.1 + 1) 0)
+        (fun v j => setRange (j * A.bw) (j * A.bw + A.bw) (fun _ => (0 : α)) v) v).size = v.size := by
+    intro e v he hv
+    unfold foldRange
+    have := foldl_pointwise (fun v j => setRange (j * A.bw) (j * A.bw + A.bw) (fun _ => (0 : α)) v) (j0 * A.bw + l0) 0
+      (fun j x => if j = j0 then 0 else x) (fun v j => size_setRange _ _ _ _) (fun v j hv => hJ v j hv)
+      (List.range' (A.rowPtr.getD e.1 0) (A.rowPtr.getD (e.1 + 1) 0 - A.rowPtr.getD e.1 0)) v hv
+    refine ⟨?_, this.2⟩
+    rw [this.1]
+    by_cases hei : e.1 = i0
+    · rw [if_pos hei]
+      apply foldl_fun_zero (fun j x => if j = j0 then 0 else x) j0
+      · rw [List.mem_range'_1, hei]; omega
+      · intro j _ y; by_cases hj : j = j0 <;> simp [hj]
+      · intro y; simp
+    · rw [if_neg hei]
+      apply foldl_fun_none
+      intro j hj y
+      rw [List.mem_range'_1] at hj
+      have hd := bcsr_rows_disjoint W hi0 he hei hj0
+      have : j ≠ j0 := by
+        intro hh; subst hh; exact hd ⟨hj.1, by omega⟩
+      simp [this]
+  have hfold := foldl_pointwise (β := {e : Nat × α // e.1 < A.rows})
+      (fun v e => foldRange (A.rowPtr.getD e.1.1 0) (A.rowPtr.getD (e.1.1 + 1) 0)
+        (fun v j => setRange (j * A.bw) (j * A.bw + A.bw) (fun _ => (0 : α)) v) v) (j0 * A.bw + l0) 0
+      (fun e x => if e.1.1 = i0 then 0 else x)
+      (fun v e => by unfold foldRange; exact foldl_size_of _ (fun v j => size_setRange _ _ _ _) _ v)
+      (fun v e hv => (hE e.1 v e.2 hv).1)
+      (es.attach.map fun e => (⟨e.1, hes e.1 e.2⟩ : {e : Nat × α // e.1 < A.rows})) v hq
+  have hres : res = (es.attach.map fun e => (⟨e.1, hes e.1 e.2⟩ : {e : Nat × α // e.1 < A.rows})).foldl
+      (fun v e => foldRange (A.rowPtr.getD e.1.1 0) (A.rowPtr.getD (e.1.1 + 1) 0)
+        (fun v j => setRange (j * A.bw) (j * A.bw + A.bw) (fun _ => (0 : α)) v) v) v := by
+    show es.foldl _ v = _
+    rw [List.foldl_map, List.foldl_attach (l := es)
+      (f := fun v e => foldRange (A.rowPtr.getD e.1 0) (A.rowPtr.getD (e.1 + 1) 0)
+        (fun v j => setRange (j * A.bw) (j * A.bw + A.bw) (fun _ => (0 : α)) v) v)]
+  rw [hres, hfold.1, List.foldl_map, List.foldl_attach (l := es) (f := fun x e => if e.1 = i0 then 0 else x)]
+  constructor
+  · intro ⟨e0, he0, hei⟩
+    apply foldl_fun_zero (fun (e : Nat × α) x => if e.1 = i0 then 0 else x) e0 es _ he0
+    · intro e _ y; by_cases h : e.1 = i0 <;> simp [h]
+    · intro y; simp [hei]
+  · intro hfree
+    apply foldl_fun_none
+    intro e he y
+    simp [hfree e he]
+
+end ScalarB1
+
 end FeatModel.LA.Filter
